@@ -12,7 +12,9 @@ Case kinds
              script records the live snapshot as its last statement; then viewer
              subprocesses on the file it wrote
   explicit   a real script using `from line_profiler import profile` with the
-             atexit path of GlobalProfiler.show, in a subprocess
+             atexit path of GlobalProfiler.show, in a subprocess; with
+             `ascii_locale` the child runs under LC_ALL=C, PYTHONUTF8=0,
+             PYTHONCOERCECLOCALE=0 (non-UTF-8 preferred encoding)
 `ref` texts are show_text applied directly to the snapshot with the options the
 MODEL says the channel passes (computed by the harness, sent in the payload)."""
 import contextlib
@@ -348,6 +350,10 @@ def case_explicit(c, root):
         fh.write(head + src + '\n' + calls + '\n' + tail)
     env = os.environ.copy()
     env.pop('LINE_PROFILE', None)
+    if c.get('ascii_locale'):
+        # preferred encoding (what open() / Path.write_text use by default) is ASCII;
+        # stdout stays UTF-8 so that the stdout channel is not the problem
+        env.update(LC_ALL='C', LANG='C', PYTHONUTF8='0', PYTHONCOERCECLOCALE='0', PYTHONIOENCODING='utf-8')
     p = subprocess.run([PY, path], cwd=d, env=env, stdout=subprocess.PIPE, stderr=subprocess.PIPE, timeout=600)
     so = p.stdout.decode('utf-8', 'replace')
     res = dict(rc=p.returncode, stderr=p.stderr.decode('utf-8', 'replace')[-800:], nhead=nhead)
@@ -361,7 +367,7 @@ def case_explicit(c, root):
     if e['wc']['stdout']:
         cut = so.find('Wrote profile results to ')
         out.append(dict(chan=e['chan_stdout'], text=so if cut < 0 else so[:cut], ref_opts=e['ref_stdout'], explicit=0))
-    r = dict(wc=e['wc'])
+    r = dict(wc=e['wc'], atexit_stderr=res['stderr'][-300:] if 'Error' in res['stderr'] else '')
     if not e['wc']['stdout']:
         r['stdout_silent'] = not any(l.startswith('Timer unit') for l in so.splitlines())
     txt = prefix + '.txt'
